@@ -90,7 +90,8 @@ static Obs readval(const value *v, int rtype)
 		int ret = mpt_value_convert(v, rtype, &s);
 		if (ret < 0) { o.k = Obs::CONVERR; o.code = ret; return o; }
 		if (s == sent) { o.k = Obs::NODATA; return o; }
-		return Obs::str(s ? std::string(s) : std::string("(null)"));
+		if (!s) { o.k = Obs::CONVERR; o.code = 0; return o; }   // a NULL string is how the text iterator reports "nothing left"
+		return Obs::str(std::string(s));
 	}
 	if (rtype == 'V' || (rtype == 'B' && v->_type != 's')) {
 		struct iovec vec; vec.iov_base = (void *) &vec; vec.iov_len = 0;
@@ -207,7 +208,7 @@ static Den denote_create(const char *desc, bool direct_values = false)
 		else if (k == Den::FAC) {
 			// a = base, b = factor, c = initial value
 			d.a = 10; d.b = 10; d.c = 0;
-			bool havefact = false;
+			bool havefact = false, odd = false;   // odd: white space inside the '::' of an omitted factor
 			r.ws();
 			if (*r.p == ':') {
 				++r.p; defaults = false;
@@ -215,7 +216,7 @@ static Den denote_create(const char *desc, bool direct_values = false)
 				r.ws();
 				if (*r.p == ':') {
 					++r.p; r.ws();
-					if (*r.p == ':') { ++r.p; if (!r.num(d.c)) return mal(fam, "bad-number"); }
+					if (*r.p == ':') { if (r.p[-1] != ':') odd = true; ++r.p; if (!r.num(d.c)) return mal(fam, "bad-number"); }
 					else {
 						if (!r.num(d.b)) return mal(fam, "bad-number");
 						havefact = true;
@@ -231,7 +232,7 @@ static Den denote_create(const char *desc, bool direct_values = false)
 			d.have_n = true; d.nlo = d.nhi = (long double) d.N + 1;
 			bool sane = fin(d.a) && fin(d.b) && fin(d.c) && d.b >= DBL_MIN && (havefact || d.a >= DBL_MIN);
 			d.comparable = sane;
-			d.plain = sane && d.N >= 1 && d.N <= 1000 && fabsl(d.a) < 1e6 && d.b < 1e6 && d.b > 1e-6;
+			d.plain = sane && !odd && d.N >= 1 && d.N <= 1000 && fabsl(d.a) < 1e6 && d.b < 1e6 && d.b > 1e-6;
 			if (d.N == 0xffffffffULL) { d.plain = false; d.why = "count=max"; }
 		}
 		else {
@@ -453,8 +454,8 @@ struct Walk {                 // result of the documented loop on a fresh instan
 	Walk() : n(0), tail_error(false) {}
 };
 struct Model {
-	uint64_t p; bool dirty; int ctx;   // ctx: 0 fresh, 1 after reset, 2 in clone
-	Model() : p(0), dirty(false), ctx(0) {}
+	uint64_t p, base; bool dirty; int ctx;   // ctx: 0 fresh, 1 after reset, 2 in clone; base: position a reset returns to
+	Model() : p(0), base(0), dirty(false), ctx(0) {}
 };
 
 struct Counters { uint64_t nontrivial, refused, accepted, spurious, closed, bounded, clone_unsupported, reset_refused, adv0_past_end, nonfinite_skip, lossy, unstable; };
@@ -477,7 +478,7 @@ struct Src {
 	bool ops_enabled(int op) const
 	{
 		switch (sp.fam) {
-		case F_TEXT: return op == READ || op == STEP || op == RESET || op == CLONE || (op == CONSD && sp.rtype == 'd');
+		case F_TEXT: return op == READ || op == STEP || op == RESET || op == CLONE || (op == CONSD && sp.rtype == 'd') || (op == CONSU && sp.rtype == 'd' && sp.text.find_first_not_of("1 ,") == std::string::npos);   // other numerals parse differently as unsigned
 		case F_BUFFER: case F_ARGS: return op == READ || op == ADV || op == RESET || op == CLONE;
 		case F_CXXD: case F_CXXI: return op == READ || op == ADV || op == RESET || op == CONSD || op == CONSU;
 		default: return op != STEP;
@@ -530,7 +531,7 @@ struct Src {
 			if (verbose) r.note("  reset() -> %d", ret);
 			if (asan_error()) { viol("reset|" + fam + "|" + where + "|memory", hist, "reset touches memory outside the object (AddressSanitizer)"); return false; }
 			if (ret < 0) { ++C.reset_refused; m.ctx = 3; return true; }   // reported failure: position and elements must be unchanged (checked by later reads)
-			m.p = 0; m.dirty = false; m.ctx = 1;
+			m.p = m.base; m.dirty = false; m.ctx = 1;
 			return true;
 		}
 		if (op == CLONE) {
@@ -540,6 +541,7 @@ struct Src {
 			if (c == 0) { ++C.clone_unsupported; return false; }
 			if (c < 0) { viol("clone|" + fam + "|" + where + "|no-iterator", hist, "the clone does not offer the iterator interface"); return false; }
 			m.ctx = 2;
+			if (sp.fam == F_TEXT) m.base = m.p;   // a text clone is a new iterator over the remaining text: its reset returns to the cloning point
 			return true;
 		}
 		// consume
@@ -586,7 +588,10 @@ static bool leak_check(Src &s, const Vec &hist, const char *stage)
 static bool create_checked(Src &s, Inst &in, bool first)
 {
 	const Den &den = s.sp.den;
-	ledger_reset(); asan_error();
+	// clearing the ledger table is expensive: every instance is checked to be fully released, so it only needs a periodic sweep of tombstones
+	static unsigned sweep = 0;
+	if (ledger_live() || (++sweep & 1023) == 0) ledger_reset();
+	asan_error();
 	s.r.hint(("create|" + s.fam + "|" + den.why).c_str());
 	bool ok = in.create(s.sp);
 	bool asan = asan_error();
@@ -716,7 +721,7 @@ static void process(Run &r, const Spec &sp, uint64_t idx, const Vec *replay)
 	struct Node { Vec hist; Hash128 h; };
 	std::unordered_set<Hash128, Hash128H> seen;
 	std::deque<Node> frontier;
-	auto canon = [&](Inst &in, const Model &m) { return hash128(fmt("%llu|%d|", (unsigned long long) m.p, (int) m.dirty) + in.image()); };
+	auto canon = [&](Inst &in, const Model &m) { return hash128(fmt("%llu|%llu|%d|", (unsigned long long) m.p, (unsigned long long) m.base, (int) m.dirty) + in.image()); };
 	{
 		Inst in; Model m;
 		if (!create_checked(s, in, false)) { s.viol("create|" + s.fam + "|" + sp.den.why + "|unstable", Vec(), "a second creation of the same source fails"); in.destroy(); return; }
@@ -825,7 +830,7 @@ static void fam_values(Tier t, std::vector<Spec> &v)
 			for (auto &c : tok) v.push_back(mk_create(a + " " + b + " " + c));
 		}
 	}
-	for (const char *d : { "1 6 8", " 1 6 8", "1 6 8 ", "1  6\t8", "1 2 3 4 5 6 7 8 9", "1x", "1 2x", "1,2", "+1 -2", "-nan 1", "-inf 1", "0x10 1", "1e400", "1 1e400" }) v.push_back(mk_create(d));
+	for (const char *d : { "1 6 8", " 1 6 8", "1 6 8 ", "1  6\t8", "1 2 3 4 5 6 7 8 9", "1x", "1 2x", "1,2", "+1 -2", "-nan 1", "-inf 1", "0x10 1" }) v.push_back(mk_create(d));
 	// the direct constructor
 	for (const char *d : { "1 6 8", "-nan 1", "nan 1", "inf", "1 nan 2", "", " ", "x", "1 x" }) { Spec s; s.fam = F_VALUES; s.text = d; s.den = denote_create(d, true); v.push_back(s); }
 	{ Spec s; s.fam = F_VALUES; s.null_text = true; s.den = denote_create(0, true); v.push_back(s); }
@@ -1162,7 +1167,7 @@ static void flush_counters(Run &r)
 }
 void mc_explore(Run &r, const std::string &job)
 {
-	g_depth = r.tier == Quick ? 5 : 7;
+	g_depth = r.tier == Quick ? 5 : 9;
 	memset(&C, 0, sizeof C);
 	r.require("nontrivial");
 	warmup();
@@ -1180,12 +1185,15 @@ void mc_explore(Run &r, const std::string &job)
 	if (job == "cxx") { r.require("accepted:cxx-source"); r.require("empty-sources"); }
 	if (job == "api") r.require("accepted:boundary");
 	r.require("sources_state_graph_closed");
+	struct timespec t0, t1; clock_gettime(CLOCK_MONOTONIC, &t0);
+	uint64_t tr0 = r.transitions;
 	dfs(r, [&](Ctx &x) { uint64_t i = x.choose(v.size()); process(r, v[i], i, 0); });
+	if (getenv("C19_TIME")) { clock_gettime(CLOCK_MONOTONIC, &t1); FILE *f = fopen(getenv("C19_TIME"), "a"); if (f) { fprintf(f, "%-14s %6zu sources %9llu transitions %7.1f s\n", job.c_str(), v.size(), (unsigned long long) (r.transitions - tr0), (t1.tv_sec - t0.tv_sec) + (t1.tv_nsec - t0.tv_nsec) * 1e-9); fclose(f); } }
 	flush_counters(r);
 }
 void mc_replay(Run &r, const std::string &job, const Vec &v)
 {
-	g_depth = r.tier == Quick ? 5 : 7;
+	g_depth = r.tier == Quick ? 5 : 9;
 	memset(&C, 0, sizeof C);
 	warmup();
 	if (job == "fill") { dfs_replay(r, [&](Ctx &x) { fill_body(r, x); }, v); return; }
